@@ -1343,20 +1343,23 @@ func (node *Node) Hash(ctx context.Context, height int) (*bitcoin.Hash32, error)
 
 func (node *Node) GetHeaders(ctx context.Context, height, maxCount int) (*client.Headers, error) {
 	var headers []*wire.BlockHeader
+	lastHeight := node.blocks.LastHeight()
 	startHeight := height
 	if height == -1 {
-		startHeight = node.blocks.LastHeight()
-		if startHeight > maxCount {
-			startHeight -= maxCount
-		} else {
+		// Most recent headers
+		startHeight = lastHeight - maxCount + 1
+		if startHeight < 0 {
 			startHeight = 0
 		}
 	}
-	for i := startHeight; i <= startHeight+maxCount; i++ {
+	if startHeight < 0 || startHeight > lastHeight {
+		return &client.Headers{}, nil
+	}
+	for i := startHeight; i < startHeight+maxCount && i <= lastHeight; i++ {
 		header, err := node.blocks.Header(ctx, i)
 		if err != nil {
 			if errors.Cause(err) == internalStorage.ErrInvalidHeight {
-				return &client.Headers{}, nil
+				break // chain was shortened since the last height was checked
 			}
 			return nil, errors.Wrap(err, "header")
 		}
